@@ -54,10 +54,11 @@ func c20Rotate(r *core.Run, p *core.Prog) {
 		g := core.NewGraph(info, wrap)
 		cl := func(n ast.Node, cond *bool) []ev {
 			var out []ev
-			if cond != nil && core.MentionsObj(info, n, vv) {
+			if cond != nil && (core.MentionsObj(info, n, vv) || core.MentionsObj(info, resolveLocal(info, loop.Body, func() ast.Expr { e, _ := normCond(n.(ast.Expr), true); return e }()), vv)) {
 				// has-packets test: v.PacketsRcvd > 0 || v.PacketsSent > 0 (or != 0), possibly negated, possibly wrapped in a
 				// one-line predicate method of the flow
 				c, truth := normCond(n.(ast.Expr), *cond)
+				c = ast.Unparen(resolveLocal(info, loop.Body, c)) // a predicate hoisted into a local
 				ci := info
 				isTest := strings.Contains(core.Str(c), "Packets")
 				if call, ok := c.(*ast.CallExpr); ok {
@@ -275,7 +276,7 @@ func c20FlowCounters(r *core.Run, p *core.Prog) {
 					if id, ok := st.Key.(*ast.Ident); ok {
 						if fv, ok := info.Uses[id].(*types.Var); ok && fv.IsField() {
 							l := "field:" + fv.Name()
-							if core.MentionsObj(info, st.Value, pSize) {
+							if core.MentionsObj(info, resolveLocal(info, f.Decl.Body, st.Value), pSize) {
 								l += ":size"
 							} else if k, okc := core.ConstInt(info, st.Value); okc && k == 1 {
 								l += ":one"
@@ -286,7 +287,7 @@ func c20FlowCounters(r *core.Run, p *core.Prog) {
 				case *ast.AssignStmt:
 					if fv := core.SelField(info, st.Lhs[0]); fv != nil && len(st.Rhs) == 1 {
 						l := "field:" + fv.Name()
-						if core.MentionsObj(info, st.Rhs[0], pSize) && (st.Tok == token.ADD_ASSIGN) == assignOp {
+						if core.MentionsObj(info, resolveLocal(info, f.Decl.Body, st.Rhs[0]), pSize) && (st.Tok == token.ADD_ASSIGN) == assignOp {
 							l += ":size"
 						} else if k, okc := core.ConstInt(info, st.Rhs[0]); okc && k == 1 && (st.Tok == token.ADD_ASSIGN) == assignOp {
 							l += ":one"
